@@ -72,6 +72,7 @@ type chaosOpts struct {
 	Faults      int  // number of fault events
 	Crash, PowerLoss, Partition, CoordCrash, BreakStreams, NetLoss, MetaFail, Swap bool
 	Yields      bool
+	TriggerFence bool // hold NewTerm requests until the target is in the middle of something
 	ReadsOnly   bool
 	Window      time.Duration
 	CheckLinearizability bool
@@ -453,6 +454,19 @@ func (c *chaos) run() bool {
 	r := c.r
 	w := c.w
 	w.Net.Tap = c.mon.tap
+	if c.o.TriggerFence {
+		w.Net.Hold = func(t *TapMsg, holds int) bool {
+			if !strings.HasSuffix(t.Method, "/NewTerm") || t.Dst == "" {
+				return false
+			}
+			// deliver as soon as the node has a goroutine parked inside an operation
+			if w.Parked(t.Dst) > 0 {
+				c.r.Count("fence_delivered_mid_operation", 1)
+				return false
+			}
+			return holds < 300 && int(H(c.r.Seed, "hold", t.CallID)%100) < 70
+		}
+	}
 	w.Net.TapSent = c.mon.tapSent
 	w.Net.AfterEvent = c.mon.afterEvent
 	c.cl.Meta.OnStore = c.mon.onStore
